@@ -506,6 +506,14 @@ func (g *gen) expr(e ast.Expr, en *env) string {
 						return "(F64.roundToEven " + args[0] + ")"
 					case "Floor":
 						return "(F64.floor " + args[0] + ")"
+					case "Ceil":
+						return "(F64.ceil " + args[0] + ")"
+					case "Trunc":
+						return "(F64.trunc " + args[0] + ")"
+					case "Abs":
+						return "(F64.abs " + args[0] + ")"
+					case "Max":
+						return "(F64.max " + args[0] + " " + args[1] + ")"
 					case "Min":
 						return "(F64.min " + args[0] + " " + args[1] + ")"
 					case "NaN":
